@@ -83,12 +83,18 @@ func (s *scte35) UpdateData() []byte {
 
 	// generate bytes for splice descriptors
 	descriptorBytes := make([]byte, 2)
-	// append descriptors that are not extracted
-	descriptorBytes = append(descriptorBytes, s.otherDescriptorBytes...)
-	// append segmentation descriptors
+	// append segmentation descriptors, and the descriptors that are not
+	// extracted at the places where they were found
+	other, next := s.otherDescriptorBytes, 0
 	for i := range s.descriptors {
+		for next < len(s.otherDescriptorPos) && s.otherDescriptorPos[next] <= i {
+			descriptorBytes = append(descriptorBytes, other[:s.otherDescriptorLens[next]]...)
+			other = other[s.otherDescriptorLens[next]:]
+			next++
+		}
 		descriptorBytes = append(descriptorBytes, s.descriptors[i].Data()...)
 	}
+	descriptorBytes = append(descriptorBytes, other...)
 	descriptorLoopLength := len(descriptorBytes) - 2
 	descriptorBytes[0] = byte(descriptorLoopLength >> 8)
 	descriptorBytes[1] = byte(descriptorLoopLength)
